@@ -904,3 +904,216 @@ pub proof fn lemma_appended_starts_with(b0: Seq<u8>, p0: int, b1: Seq<u8>, p1: i
 {
     assert forall|i: int| 0 <= i < bs.len() implies #[trigger] bit_at(b1, p0 + i) == bs[i] by { }
 }
+
+// ===== decoder of a fragmented item stream (X.691 11.9.3.8), shared by OCTET STRING (unit 8) and BIT STRING (unit 1) =====
+
+/// decodes length determinants and the items that follow them until a fragment of fewer than 16K items ends the stream;
+/// returns the concatenated content bits and the end position
+#[verifier::opaque]
+pub open spec fn dec_frag(bytes: Seq<u8>, pos: int, limit: int, unit: int) -> Option<(Seq<bool>, int)>
+    decreases limit - pos
+{
+    match dec_len_general(bytes, pos, limit) {
+        None => None,
+        Some((n, p1)) => {
+            let p2 = p1 + unit * n;
+            if p2 > limit || p2 <= pos || p1 < 0 { None }
+            else {
+                let chunk = bits_of(bytes).subrange(p1, p2);
+                if n < 16384 { Some((chunk, p2)) }
+                else { match dec_frag(bytes, p2, limit, unit) { None => None, Some((rest, p3)) => Some((chunk + rest, p3)) } }
+            }
+        }
+    }
+}
+
+pub proof fn lemma_starts_with_subrange(bytes: Seq<u8>, pos: int, bs: Seq<bool>)
+    requires 0 <= pos, starts_with(bytes, pos, bs)
+    ensures bits_of(bytes).subrange(pos, pos + bs.len()) =~= bs
+{
+    assert forall|i: int| 0 <= i < bs.len() implies bits_of(bytes).subrange(pos, pos + bs.len())[i] == bs[i] by {
+        assert(bit_at(bytes, pos + i) == bs[i]);
+    }
+}
+
+/// 11.9.3.8 round trip for octets: decoding the fragment stream of `s` gives back the bits of `s` and ends behind it
+pub proof fn lemma_rt_frag_octets(bytes: Seq<u8>, pos: int, limit: int, s: Seq<u8>)
+    requires 0 <= pos, s.len() <= 0x0fff_ffff_ffff_ffff, starts_with(bytes, pos, x691_frag_octets(s)), pos + x691_frag_octets(s).len() <= limit
+    ensures dec_frag(bytes, pos, limit, 8) == Some((bits_of(s), pos + x691_frag_octets(s).len()))
+    decreases s.len()
+{
+    reveal_with_fuel(dec_frag, 2);
+    lemma_frag_unfold(s);
+    lemma_bits_of_len(s);
+    let n = s.len() as u64;
+    if s.len() < 16384 {
+        let l = x691_len_short(n);
+        lemma_starts_with_split(bytes, pos, l, bits_of(s));
+        assert(x691_len_general(n) == l);
+        lemma_rt_len_general(bytes, pos, limit, n);
+        let p1 = pos + l.len();
+        lemma_starts_with_subrange(bytes, p1, bits_of(s));
+        assert(p1 + 8 * n == pos + x691_frag_octets(s).len());
+    } else {
+        let a = len_announced(n) as int;
+        let l = x691_len_general(n);
+        let head = s.subrange(0, a);
+        let tail = s.subrange(a, s.len() as int);
+        let rest = x691_frag_octets(tail);
+        lemma_bits_of_len(head);
+        assert(x691_frag_octets(s) == (l + bits_of(head)) + rest);
+        lemma_starts_with_split(bytes, pos, l + bits_of(head), rest);
+        lemma_starts_with_split(bytes, pos, l, bits_of(head));
+        lemma_rt_len_general(bytes, pos, limit, n);
+        let p1 = pos + l.len();
+        let p2 = p1 + 8 * a;
+        lemma_starts_with_subrange(bytes, p1, bits_of(head));
+        assert((l + bits_of(head)).len() == l.len() + 8 * a);
+        lemma_rt_frag_octets(bytes, p2, limit, tail);
+        assert(bits_of(head) + bits_of(tail) =~= bits_of(s)) by {
+            assert forall|i: int| 0 <= i < 8 * s.len() implies (bits_of(head) + bits_of(tail))[i] == bits_of(s)[i] by {
+                if i < 8 * a { assert(head[i / 8] == s[i / 8]); } else { assert(tail[(i - 8 * a) / 8] == s[a + (i - 8 * a) / 8]); assert((i - 8 * a) % 8 == i % 8); assert(a + (i - 8 * a) / 8 == i / 8); }
+            }
+        }
+    }
+}
+
+/// a whole-octet payload seen as bits
+pub proof fn lemma_payload_bits(buf: Seq<u8>, src: Seq<u8>, sp: int, n: int)
+    requires payload(buf, src, sp, n), n % 8 == 0, 0 <= n, 0 <= sp, sp + n <= src.len() * 8
+    ensures bits_of(buf) =~= bits_of(src).subrange(sp, sp + n)
+{
+    assert(buf.len() * 8 == n);
+    assert forall|i: int| 0 <= i < n implies bits_of(buf)[i] == bits_of(src).subrange(sp, sp + n)[i] by {
+        assert(bit_at(buf, i) == bit_at(src, sp + i));
+    }
+}
+
+/// a buffer that grew by n octets which were then filled from the input: its bits are the old bits followed by that input range
+pub proof fn lemma_append_chunk_bits(b1: Seq<u8>, b2: Seq<u8>, b3: Seq<u8>, src: Seq<u8>, sp: int, n: int)
+    requires
+        0 <= n, 0 <= sp, sp + 8 * n <= src.len() * 8,
+        b2.len() == b1.len() + n, b3.len() == b2.len(),
+        forall|k: int| 0 <= k < b1.len() ==> b3[k] == b1[k],
+        copied(b2.subrange(b1.len() as int, b2.len() as int), b3.subrange(b1.len() as int, b3.len() as int), src, sp, 0, 8 * n),
+    ensures bits_of(b3) =~= bits_of(b1) + bits_of(src).subrange(sp, sp + 8 * n)
+{
+    let a = b1.len() as int;
+    let s3 = b3.subrange(a, b3.len() as int);
+    assert forall|i: int| 0 <= i < b3.len() * 8 implies bits_of(b3)[i] == (bits_of(b1) + bits_of(src).subrange(sp, sp + 8 * n))[i] by {
+        if i < 8 * a {
+            assert(b3[i / 8] == b1[i / 8]);
+        } else {
+            let j = i - 8 * a;
+            assert(bit_at(s3, j) == bit_at(src, sp + j));
+            assert(s3[j / 8] == b3[a + j / 8]);
+            assert((8 * a + j) / 8 == a + j / 8 && (8 * a + j) % 8 == j % 8);
+        }
+    }
+}
+
+/// one unfolding of the fragment decoder, stated on what a reader observes: the length determinant at q, then the items
+pub proof fn lemma_dec_frag_step(rb: Seq<u8>, q: int, lim: int, unit: int)
+    requires 0 <= q, unit >= 1
+    ensures
+        dec_len_general(rb, q, lim) is None ==> dec_frag(rb, q, lim, unit) is None,
+        dec_len_general(rb, q, lim) matches Some((n, q1)) ==> (
+            q1 > q &&
+            if q1 + unit * n > lim { dec_frag(rb, q, lim, unit) is None }
+            else if n < 16384 { dec_frag(rb, q, lim, unit) == Some((bits_of(rb).subrange(q1, q1 + unit * n), q1 + unit * n)) }
+            else { dec_frag(rb, q, lim, unit) == (match dec_frag(rb, q1 + unit * n, lim, unit) {
+                        Some((rest, pe)) => Some((bits_of(rb).subrange(q1, q1 + unit * n) + rest, pe)), None => None }) }),
+{
+    reveal_with_fuel(dec_frag, 2);
+    match dec_len_general(rb, q, lim) {
+        Some((n, q1)) => { assert(unit * n >= 0) by(nonlinear_arith) requires unit >= 1, n >= 0; }
+        None => {}
+    }
+}
+
+/// appending the next chunk to what has been collected (associativity packaged for the reader loops)
+pub proof fn lemma_dec_frag_collect(whole: Option<(Seq<bool>, int)>, sofar: Seq<bool>, chunk: Seq<bool>, at_q: Option<(Seq<bool>, int)>, at_next: Option<(Seq<bool>, int)>, sofar2: Seq<bool>)
+    requires
+        whole == (match at_q { Some((rest, pe)) => Some((sofar + rest, pe)), None => None }),
+        at_q == (match at_next { Some((rest, pe)) => Some((chunk + rest, pe)), None => None }),
+        sofar2 =~= sofar + chunk,
+    ensures whole == (match at_next { Some((rest, pe)) => Some((sofar2 + rest, pe)), None => None })
+{
+    match at_next {
+        Some((rest, pe)) => { assert((sofar + chunk) + rest =~= sofar + (chunk + rest)); }
+        None => {}
+    }
+}
+
+/// the octets `v` hold exactly the bit string `bs`, left aligned, unused trailing bits zero
+pub open spec fn is_bits(v: Seq<u8>, bs: Seq<bool>) -> bool {
+    &&& v.len() == (bs.len() + 7) / 8
+    &&& forall|j: int| 0 <= j < v.len() * 8 ==> #[trigger] bit_at(v, j) == (if j < bs.len() { bs[j] } else { false })
+}
+
+pub proof fn lemma_payload_is_bits(buf: Seq<u8>, src: Seq<u8>, sp: int, n: int)
+    requires payload(buf, src, sp, n), 0 <= n, 0 <= sp, sp + n <= src.len() * 8
+    ensures is_bits(buf, bits_of(src).subrange(sp, sp + n))
+{
+    let bs = bits_of(src).subrange(sp, sp + n);
+    assert forall|j: int| 0 <= j < buf.len() * 8 implies #[trigger] bit_at(buf, j) == (if j < bs.len() { bs[j] } else { false }) by {
+        if j < n { assert(bs[j] == bit_at(src, sp + j)); }
+    }
+}
+
+/// BIT STRING reader step: the buffer grew by zero octets and received n more bits behind the `sofar.len()` it held
+pub proof fn lemma_bits_append(b1: Seq<u8>, b2: Seq<u8>, b3: Seq<u8>, sofar: Seq<bool>, src: Seq<u8>, sp: int, n: int)
+    requires
+        0 <= n, 0 <= sp, sp + n <= src.len() * 8,
+        is_bits(b1, sofar), grown(b1, b2), b2.len() == (sofar.len() + n + 7) / 8,
+        copied(b2, b3, src, sp, sofar.len() as int, n),
+    ensures is_bits(b3, sofar + bits_of(src).subrange(sp, sp + n))
+{
+    let chunk = bits_of(src).subrange(sp, sp + n);
+    let all = sofar + chunk;
+    lemma_grown_bits(b1, b2);
+    assert forall|j: int| 0 <= j < b3.len() * 8 implies #[trigger] bit_at(b3, j) == (if j < all.len() { all[j] } else { false }) by {
+        if j < sofar.len() {
+            assert(bit_at(b3, j) == bit_at(b2, j));
+            assert(j < b1.len() * 8);
+        } else if j < sofar.len() + n {
+            assert(bit_at(b3, j) == bit_at(src, sp + (j - sofar.len())));
+            assert(chunk[j - sofar.len()] == bit_at(src, sp + (j - sofar.len())));
+        } else {
+            assert(bit_at(b3, j) == bit_at(b2, j));
+        }
+    }
+}
+
+/// 11.9.3.8 round trip for bit strings
+pub proof fn lemma_rt_frag_bits(bytes: Seq<u8>, pos: int, limit: int, bs: Seq<bool>)
+    requires 0 <= pos, bs.len() <= 0x0fff_ffff_ffff_ffff, starts_with(bytes, pos, x691_frag_bits(bs)), pos + x691_frag_bits(bs).len() <= limit
+    ensures dec_frag(bytes, pos, limit, 1) == Some((bs, pos + x691_frag_bits(bs).len()))
+    decreases bs.len()
+{
+    reveal_with_fuel(dec_frag, 2);
+    lemma_frag_bits_unfold(bs);
+    let n = bs.len() as u64;
+    if bs.len() < 16384 {
+        let l = x691_len_short(n);
+        lemma_starts_with_split(bytes, pos, l, bs);
+        assert(x691_len_general(n) == l);
+        lemma_rt_len_general(bytes, pos, limit, n);
+        lemma_starts_with_subrange(bytes, pos + l.len(), bs);
+    } else {
+        let a = len_announced(n) as int;
+        let l = x691_len_general(n);
+        let head = bs.subrange(0, a);
+        let tail = bs.subrange(a, bs.len() as int);
+        let rest = x691_frag_bits(tail);
+        assert(x691_frag_bits(bs) == (l + head) + rest);
+        lemma_starts_with_split(bytes, pos, l + head, rest);
+        lemma_starts_with_split(bytes, pos, l, head);
+        lemma_rt_len_general(bytes, pos, limit, n);
+        let p1 = pos + l.len();
+        lemma_starts_with_subrange(bytes, p1, head);
+        assert((l + head).len() == l.len() + a);
+        lemma_rt_frag_bits(bytes, p1 + a, limit, tail);
+        assert(head + tail =~= bs);
+    }
+}
